@@ -186,6 +186,10 @@ func addRecordToAggregations(grpReq *structs.GroupByRequest, timeHistogram *stru
 	qid uint64, aggsKeyWorkingBuf []byte, timeRangeBuckets *aggregations.Range, nodeRes *structs.NodeResult) []byte {
 
 	measureResults := make([]sutils.CValueEnclosure, len(MFuncs))
+	for i := range measureResults {
+		// the value of a measured column that this segment does not have
+		measureResults[i].Dtype = sutils.SS_DT_BACKFILL
+	}
 	var retCVal sutils.CValueEnclosure
 
 	usedByTimechart := (timeHistogram != nil && timeHistogram.Timechart != nil)
@@ -1302,16 +1306,11 @@ func ApplyAgileTree(str *segread.AgileTreeReader, aggs *structs.QueryAggregators
 	}
 }
 
+// A measured column that does not exist in this segment is not a reason to skip the segment: its rows still
+// belong to their groups (count), the measure sees an absent value for them (see addRecordToAggregations).
 func checkIfGrpColsPresent(grpReq *structs.GroupByRequest,
 	mcsr *segread.MultiColSegmentReader, allSearchResults *segresults.SearchResults) (string, bool) {
-	measureInfo, _ := allSearchResults.BlockResults.GetConvertedMeasureInfo()
 	for _, cname := range grpReq.GroupByColumns {
-		if !mcsr.IsColPresent(cname) {
-			return cname, false
-		}
-	}
-
-	for cname := range measureInfo {
 		if !mcsr.IsColPresent(cname) {
 			return cname, false
 		}
